@@ -66,7 +66,7 @@ def groupsLoop : (fuel : Nat) → List (Cfg × HState) → It → Res (List (Cfg
 def memberEndChecks (c : Cfg) (h : HState) : Res Unit := do
   checkMandatoryCardinality c.args h.args
   pendingCheckRequired h.pending
-  checkGlobals c.globals h.globals
+  checkGlobals c.args h.args c.globals h.globals
 
 def groupsEndChecks : List (Cfg × HState) → Res Unit
   | [] => pure ()
